@@ -81,6 +81,15 @@ def run(ctx):
                                 "%s changed a type whose documented trigger is absent" % name, {"type": repr(t)}, {"result": repr(r)})
                 else:
                     H.ok(key, nontrivial=not spec_c.tyeq(r, t), sample={"rewriter": name, "type": infer.short(t), "result": infer.short(r)})
+    H.section("class named like a handler", "a user class whose __name__ equals a 'rewrite_' suffix (Union, Generator) inside a container, default chain and RewriteGenerator", "2 classes")
+    for nm, rw in (("Union", DEFAULT_REWRITER), ("Generator", RewriteGenerator())):
+        cls = type(nm, (), {})
+        try:
+            rw.rewrite(List[cls])
+            H.ok("name-dispatch:" + nm, sample={"class": nm, "result": "no exception"})
+        except AttributeError as e:
+            H.violation("monkeytype.typing:GenericTypeRewriter.rewrite", "C07-name-dispatch|AttributeError", "a plain class named like a handler suffix is routed to that handler and the rewriter raises",
+                        {"type": "List[<class named %s>]" % nm}, repr(e))
     H.section("rewriters on enumerated types", "TYPES(2) over the fixture hierarchy incl. Tuple[()], Tuple[T, ...], Type, Callable, Iterator, Generator, unions of 2..7 members: no exception; unchanged unless trigger; "
               "witness values of the input (enumerated inhabitants) stay members", "depth<=2")
     inhabitants = corpus.vals(1, 2)
